@@ -1,5 +1,372 @@
-/- C06 — property theorems (to be written). -/
-import SoundeventModel.Basic
+/-
+  C06 — Affinity is a symmetric intersection-over-union in [0, 1].
+  Property theorems only (helper lemmas and the contracts `Sane`, `Sound`, `BoxExact`,
+  `ShiftInv` on the GEOS parameter: Proofs/Lemmas/Affinity.lean).
+
+  `affinity G g₁ g₂ tb fb` is `compute_affinity(g₁, g₂, time_buffer=tb, freq_buffer=fb)` with
+  everything shapely/GEOS computes as the parameter `G`.  The model follows the repaired
+  code (`fixes/C06-1-clamp-affinity.patch`): the area ratio is `min(I / U, 1)`.
+-/
+import Mathlib.Tactic.Linarith
+import Mathlib.Tactic.Ring
+import Mathlib.Algebra.Order.Field.Basic
+import Proofs.Lemmas.Affinity
 namespace SE.Proofs.C06
+open SE SE.Affinity
+variable {σ : Type}
+
+/-! ### the two formulas -/
+
+
+theorem iou_range (a b i : Rat) (h0 : 0 ≤ i) (ha : i ≤ a) (hb : i ≤ b) :
+    0 ≤ iou a b i ∧ iou a b i ≤ 1 := by
+  unfold iou
+  split
+  · exact ⟨le_refl _, by norm_num⟩
+  · rename_i hu
+    have hpos : 0 < a + b - i := lt_of_le_of_ne (by linarith) (Ne.symm hu)
+    exact ⟨div_nonneg h0 hpos.le, (div_le_one hpos).2 (by linarith)⟩
+
+/-- the formula does not depend on the order of the two areas -/
+theorem iou_symm (a b i : Rat) : iou a b i = iou b a i := by
+  unfold iou; rw [add_comm a b]
+
+/-- `A = B = I > 0` gives exactly 1 -/
+theorem iou_self (a : Rat) (h : 0 < a) : iou a a a = 1 := by
+  unfold iou
+  have : a + a - a = a := by ring
+  rw [this, if_neg (ne_of_gt h), div_self (ne_of_gt h)]
+
+/-- no intersection gives 0 (also through the zero-union guard) -/
+theorem iou_zero (a b : Rat) : iou a b 0 = 0 := by
+  unfold iou; split <;> simp
+
+/-- the repaired (clamped) formula lies in `[0, 1]` as soon as `0 ≤ I ≤ A + B` -/
+theorem iouC_range (a b i : Rat) (h0 : 0 ≤ i) (hu : i ≤ a + b) :
+    0 ≤ iouC a b i ∧ iouC a b i ≤ 1 := by
+  unfold iouC
+  split
+  · exact ⟨le_refl _, by norm_num⟩
+  · rename_i hne
+    have hpos : 0 < a + b - i := lt_of_le_of_ne (by linarith) (Ne.symm hne)
+    exact ⟨le_min (div_nonneg h0 hpos.le) (by norm_num), min_le_right _ _⟩
+
+/-- under the exact contract `I ≤ min(A, B)` the clamp is inactive -/
+theorem iouC_eq_iou (a b i : Rat) (h0 : 0 ≤ i) (ha : i ≤ a) (hb : i ≤ b) : iouC a b i = iou a b i := by
+  have h := (iou_range a b i h0 ha hb).2
+  unfold iouC iou at *
+  split
+  · rfl
+  · rename_i hne
+    rw [if_neg hne] at h
+    exact min_eq_left h
+
+theorem iouC_symm (a b i : Rat) : iouC a b i = iouC b a i := by
+  unfold iouC; rw [add_comm a b]
+
+theorem iouC_self (a : Rat) (h : 0 < a) : iouC a a a = 1 := by
+  rw [iouC_eq_iou a a a h.le (le_refl _) (le_refl _), iou_self a h]
+
+theorem iouC_zero (a b : Rat) : iouC a b 0 = 0 := by
+  unfold iouC; split <;> simp
+
+/-- the time affinity is the same formula on durations and overlap length -/
+theorem timeIoU_eq_iou (s1 e1 s2 e2 : Rat) :
+    timeIoU s1 e1 s2 e2 = iou (e1 - s1) (e2 - s2) (max 0 (min e1 e2 - max s1 s2)) := rfl
+
+/-- time affinity of two ordered extents lies in `[0, 1]` -/
+theorem timeIoU_range (s1 e1 s2 e2 : Rat) (h1 : s1 ≤ e1) (h2 : s2 ≤ e2) :
+    0 ≤ timeIoU s1 e1 s2 e2 ∧ timeIoU s1 e1 s2 e2 ≤ 1 := by
+  obtain ⟨a, b, c⟩ := timeInter_bounds s1 e1 s2 e2 h1 h2
+  rw [timeIoU_eq_iou]; exact iou_range _ _ _ a b c
+
+theorem timeIoU_symm (s1 e1 s2 e2 : Rat) : timeIoU s1 e1 s2 e2 = timeIoU s2 e2 s1 e1 := by
+  rw [timeIoU_eq_iou, timeIoU_eq_iou, min_comm e1 e2, max_comm s1 s2, iou_symm]
+
+theorem timeIoU_self (s e : Rat) (h : s < e) : timeIoU s e s e = 1 := by
+  rw [timeIoU_eq_iou, min_self, max_self, max_eq_right (by linarith : (0 : Rat) ≤ e - s)]
+  exact iou_self _ (by linarith)
+
+/-- extents that do not overlap (touching included) give 0 -/
+theorem timeIoU_disjoint (s1 e1 s2 e2 : Rat) (h : e1 ≤ s2 ∨ e2 ≤ s1) : timeIoU s1 e1 s2 e2 = 0 := by
+  have : max 0 (min e1 e2 - max s1 s2) = 0 := by
+    apply max_eq_left
+    rcases h with h | h
+    · have := min_le_left e1 e2; have := le_max_right s1 s2; linarith
+    · have := min_le_right e1 e2; have := le_max_left s1 s2; linarith
+  rw [timeIoU_eq_iou, this, iou_zero]
+
+/-- a common time offset changes nothing -/
+theorem timeIoU_shift (s1 e1 s2 e2 d : Rat) :
+    timeIoU (s1 + d) (e1 + d) (s2 + d) (e2 + d) = timeIoU s1 e1 s2 e2 := by
+  simp only [timeIoU_eq_iou, min_add_add_right, max_add_add_right]
+  congr 1 <;> ring_nf
+
+
+/-! ### rectangles in closed form -/
+
+
+/-- the intersection area of two rectangles is non-negative and at most either area -/
+theorem boxInter_le_min (s1 l1 e1 h1 s2 l2 e2 h2 : Rat) (a1 : s1 ≤ e1) (b1 : l1 ≤ h1) (a2 : s2 ≤ e2)
+    (b2 : l2 ≤ h2) :
+    0 ≤ boxInter s1 l1 e1 h1 s2 l2 e2 h2 ∧
+    boxInter s1 l1 e1 h1 s2 l2 e2 h2 ≤ min (boxArea s1 l1 e1 h1) (boxArea s2 l2 e2 h2) := by
+  obtain ⟨h0, ha, hb⟩ := boxInter_bounds s1 l1 e1 h1 s2 l2 e2 h2 a1 b1 a2 b2
+  exact ⟨h0, le_min ha hb⟩
+
+/-- rectangle intersection area is symmetric -/
+theorem boxInter_symm (s1 l1 e1 h1 s2 l2 e2 h2 : Rat) :
+    boxInter s1 l1 e1 h1 s2 l2 e2 h2 = boxInter s2 l2 e2 h2 s1 l1 e1 h1 := by
+  unfold boxInter; rw [min_comm e1 e2, max_comm s1 s2, min_comm h1 h2, max_comm l1 l2]
+
+/-- a rectangle intersected with itself has its own area -/
+theorem boxInter_self (s l e h : Rat) (a : s ≤ e) (b : l ≤ h) : boxInter s l e h s l e h = boxArea s l e h := by
+  unfold boxInter boxArea
+  rw [min_self, max_self, min_self, max_self, max_eq_right (by linarith), max_eq_right (by linarith)]
+
+/-- rectangles disjoint in time have intersection area 0 -/
+theorem boxInter_disjoint (s1 l1 e1 h1 s2 l2 e2 h2 : Rat) (h : e1 ≤ s2 ∨ e2 ≤ s1) :
+    boxInter s1 l1 e1 h1 s2 l2 e2 h2 = 0 := by
+  unfold boxInter
+  have : max 0 (min e1 e2 - max s1 s2) = 0 := by
+    apply max_eq_left
+    rcases h with h | h
+    · have := min_le_left e1 e2; have := le_max_right s1 s2; linarith
+    · have := min_le_right e1 e2; have := le_max_left s1 s2; linarith
+  rw [this, zero_mul]
+
+/-- rectangle areas and intersection areas are invariant under a common time shift -/
+theorem box_shift (s1 l1 e1 h1 s2 l2 e2 h2 d : Rat) :
+    boxInter (s1 + d) l1 (e1 + d) h1 (s2 + d) l2 (e2 + d) h2 = boxInter s1 l1 e1 h1 s2 l2 e2 h2 ∧
+    boxArea (s1 + d) l1 (e1 + d) h1 = boxArea s1 l1 e1 h1 := by
+  unfold boxInter boxArea
+  simp only [min_add_add_right, max_add_add_right]
+  constructor
+  · congr 2; ring
+  · ring
+
+
+
+open SE SE.Affinity
+
+/-! ### the dispatcher -/
+
+/-- `compute_affinity` returns a value exactly when no negative buffer reaches `buffer_geometry` -/
+theorem affinity_ok_iff (G : Geos σ) (g1 g2 : Geom) (tb fb : Rat) :
+    (∃ v, affinity G g1 g2 tb fb = .ok v) ↔
+      (∃ p1 p2, prepare G g1 tb fb = .ok p1 ∧ prepare G g2 tb fb = .ok p2) := by
+  unfold affinity
+  constructor
+  · rintro ⟨v, h⟩
+    split at h
+    · cases h
+    · rename_i p1 h1
+      split at h
+      · cases h
+      · rename_i p2 h2
+        exact ⟨p1, p2, h1, h2⟩
+  · rintro ⟨p1, p2, h1, h2⟩
+    rw [h1, h2]; exact ⟨_, rfl⟩
+
+/-- **Range.**  For valid geometries the (repaired) affinity lies in `[0, 1]`; of GEOS only
+    `Sane` is needed (`0 ≤ I ≤ A₁ + A₂`), which binary64 results satisfy as well. -/
+theorem C06_range (G : Geos σ) (hG : Sane G) (g1 g2 : Geom) (tb fb v : Rat) (w1 : WF g1) (w2 : WF g2)
+    (h : affinity G g1 g2 tb fb = .ok v) : 0 ≤ v ∧ v ≤ 1 := by
+  obtain ⟨p1, p2, h1, h2, rfl⟩ := affinity_ok_prepared G g1 g2 tb fb v h
+  unfold affinityP
+  split
+  · exact timeIoU_range _ _ _ _ (prepare_ordered G hG.bounds_ordered g1 tb fb p1 w1 h1)
+      (prepare_ordered G hG.bounds_ordered g2 tb fb p2 w2 h2)
+  · exact iouC_range _ _ _ (hG.inter_nonneg _ _) (hG.inter_le_sum _ _)
+
+theorem affinityP_symm (G : Geos σ) (hG : Sound G) (p1 p2 : Prep σ) :
+    affinityP G p1 p2 = affinityP G p2 p1 := by
+  unfold affinityP
+  rw [Bool.or_comm (isTime p1) (isTime p2), timeIoU_symm, iouC_symm, hG.inter_symm]
+
+/-- **Symmetry**, errors included -/
+theorem C06_symm (G : Geos σ) (hG : Sound G) (g1 g2 : Geom) (tb fb : Rat) :
+    affinity G g1 g2 tb fb = affinity G g2 g1 tb fb := by
+  unfold affinity
+  rcases h1 : prepare G g1 tb fb with e1 | p1 <;> rcases h2 : prepare G g2 tb fb with e2 | p2 <;> simp only
+  · rw [(prepare_error G g1 tb fb e1 h1).1, (prepare_error G g2 tb fb e2 h2).1]
+  · rw [affinityP_symm G hG]
+
+/-- **Self-affinity.**  A geometry of non-zero extent (duration in the time branch, area
+    otherwise) compared with itself gives exactly 1 -/
+theorem C06_self_one (G : Geos σ) (hG : Sound G) (g : Geom) (tb fb : Rat) (p : Prep σ)
+    (hp : prepare G g tb fb = .ok p) (hext : 0 < extent G p) : affinity G g g tb fb = .ok 1 := by
+  rw [affinity_eq G g g tb fb p p hp hp]
+  congr 1
+  unfold affinityP
+  unfold extent at hext
+  cases ht : isTime p <;> simp only [ht, Bool.or_self, if_true] at hext ⊢
+  · simp only [Bool.false_eq_true, if_false] at hext ⊢
+    rw [hG.inter_self]; exact iouC_self _ hext
+  · exact timeIoU_self _ _ (by linarith)
+
+/-- **Disjoint in time.**  If the prepared (buffered) geometries do not overlap in time the
+    affinity is 0 -/
+theorem C06_disjoint_zero (G : Geos σ) (hG : Sound G) (g1 g2 : Geom) (tb fb : Rat) (p1 p2 : Prep σ)
+    (w1 : WF g1) (w2 : WF g2)
+    (h1 : prepare G g1 tb fb = .ok p1) (h2 : prepare G g2 tb fb = .ok p2)
+    (hd : (timeBounds G p1).2 ≤ (timeBounds G p2).1 ∨ (timeBounds G p2).2 ≤ (timeBounds G p1).1) :
+    affinity G g1 g2 tb fb = .ok 0 := by
+  rw [affinity_eq G g1 g2 tb fb p1 p2 h1 h2]
+  congr 1
+  unfold affinityP
+  cases t1 : isTime p1 <;> cases t2 : isTime p2 <;> simp only [Bool.or_self, Bool.or_true, Bool.or_false,
+      Bool.false_eq_true, if_true, if_false]
+  · obtain ⟨a1, b1⟩ := toShape_bounds G hG g1 tb fb p1 w1 h1 t1
+    obtain ⟨a2, b2⟩ := toShape_bounds G hG g2 tb fb p2 w2 h2 t2
+    have : G.inter (toShape G p1) (toShape G p2) = 0 := by
+      rcases hd with hd | hd
+      · exact hG.inter_disjoint _ _ (by rw [b1, a2]; exact hd)
+      · rw [hG.inter_symm]; exact hG.inter_disjoint _ _ (by rw [b2, a1]; exact hd)
+    rw [this, iouC_zero]
+  all_goals exact timeIoU_disjoint _ _ _ _ hd
+
+/-- **Bounding boxes.**  For two (valid) bounding boxes the affinity is the area
+    intersection-over-union in closed form, whatever the buffers -/
+theorem C06_box_closed_form (G : Geos σ) (hG : BoxExact G) (s1 l1 e1 h1 s2 l2 e2 h2 tb fb : Rat)
+    (w1 : WF (.boundingBox s1 l1 e1 h1)) (w2 : WF (.boundingBox s2 l2 e2 h2)) :
+    affinity G (.boundingBox s1 l1 e1 h1) (.boundingBox s2 l2 e2 h2) tb fb =
+      .ok (iou (boxArea s1 l1 e1 h1) (boxArea s2 l2 e2 h2) (boxInter s1 l1 e1 h1 s2 l2 e2 h2)) := by
+  have p1 : prepare G (.boundingBox s1 l1 e1 h1) tb fb = .ok (.box s1 l1 e1 h1) := by rw [prepare_spec]
+  have p2 : prepare G (.boundingBox s2 l2 e2 h2) tb fb = .ok (.box s2 l2 e2 h2) := by rw [prepare_spec]
+  rw [affinity_eq G _ _ tb fb _ _ p1 p2]
+  congr 1
+  obtain ⟨b0, b1, b2⟩ := boxInter_bounds s1 l1 e1 h1 s2 l2 e2 h2 w1.1 w1.2 w2.1 w2.2
+  simp only [affinityP, isTime_box, Bool.or_self, Bool.false_eq_true, if_false, toShape]
+  rw [hG.area_box _ _ _ _ w1.1 w1.2, hG.area_box _ _ _ _ w2.1 w2.2,
+    hG.inter_box _ _ _ _ _ _ _ _ w1.1 w1.2 w2.1 w2.2, iouC_eq_iou _ _ _ b0 b1 b2]
+
+/-- **Time-only.**  Whenever either geometry is a TimeStamp or a TimeInterval the affinity is
+    the intersection-over-union of the (buffered) time extents -/
+theorem C06_time_only_is_time_iou (G : Geos σ) (g1 g2 : Geom) (tb fb : Rat) (p1 p2 : Prep σ)
+    (ht : timeTypes.contains g1.tag = true ∨ timeTypes.contains g2.tag = true)
+    (h1 : prepare G g1 tb fb = .ok p1) (h2 : prepare G g2 tb fb = .ok p2) :
+    affinity G g1 g2 tb fb =
+      .ok (timeIoU (timeBounds G p1).1 (timeBounds G p1).2 (timeBounds G p2).1 (timeBounds G p2).2) := by
+  rw [affinity_eq G g1 g2 tb fb p1 p2 h1 h2]
+  congr 1
+  have : (isTime p1 || isTime p2) = true := by
+    rcases ht with ht | ht
+    · rw [prepare_time_only G g1 tb fb p1 ht h1]; rfl
+    · rw [prepare_time_only G g2 tb fb p2 ht h2]; simp
+  simp only [affinityP, this, if_true]
+
+/-- `compute_affinity` composes the dispatch (`timeBranchArgs`: which bounds reach
+    `compute_affinity_in_time`) with the time IoU — the two halves that the symbolic ties
+    re-derive from the source separately -/
+theorem C06_time_branch_composes (G : Geos σ) (g1 g2 : Geom) (tb fb s1 e1 s2 e2 : Rat)
+    (h : timeBranchArgs G g1 g2 tb fb = some (s1, e1, s2, e2)) :
+    affinity G g1 g2 tb fb = .ok (timeIoU s1 e1 s2 e2) := by
+  unfold timeBranchArgs at h
+  unfold affinity
+  rcases h1 : prepare G g1 tb fb with e | p1 <;> rcases h2 : prepare G g2 tb fb with e' | p2 <;>
+    rw [h1, h2] at h <;> simp only at h
+  · cases h
+  · cases h
+  · cases h
+  · by_cases ht : (isTime p1 || isTime p2) = true
+    · rw [if_pos ht] at h
+      cases h
+      simp only [affinityP, ht, if_true]
+    · rw [if_neg ht] at h
+      cases h
+
+/-- the (buffered) time extents in closed form: a time stamp `t` becomes
+    `[max(t - tb, 0), t + tb]`, intervals and boxes keep `[start, end]` -/
+theorem C06_time_extents (G : Geos σ) (tb fb : Rat) (hb : 0 ≤ tb ∧ 0 ≤ fb) :
+    (∀ t, ∃ p, prepare G (.timeStamp t) tb fb = .ok p ∧ timeBounds G p = (max (t - tb) 0, t + tb)) ∧
+    (∀ s e, ∃ p, prepare G (.timeInterval s e) tb fb = .ok p ∧ timeBounds G p = (s, e)) ∧
+    (∀ s l e h, ∃ p, prepare G (.boundingBox s l e h) tb fb = .ok p ∧ timeBounds G p = (s, e)) := by
+  have hn : ¬ (tb < 0 ∨ fb < 0) := by
+    rintro (h | h) <;> linarith [hb.1, hb.2]
+  refine ⟨fun t => ?_, fun s e => ?_, fun s l e h => ?_⟩
+  · exact ⟨.interval "TimeInterval" (max (t - tb) 0) (t + tb), by rw [prepare_spec]; simp only [hn, if_false], rfl⟩
+  · exact ⟨_, by rw [prepare_spec], rfl⟩
+  · exact ⟨_, by rw [prepare_spec], rfl⟩
+
+/-- a negative buffer is rejected (`ValueError`) exactly when a geometry that is buffered is
+    involved; otherwise the buffers are ignored -/
+theorem C06_negative_buffer (G : Geos σ) (g1 g2 : Geom) (tb fb : Rat) :
+    affinity G g1 g2 tb fb = .error .invalid ↔
+      ((tb < 0 ∨ fb < 0) ∧ (bufferTypes.contains g1.tag = true ∨ bufferTypes.contains g2.tag = true)) := by
+  unfold affinity
+  rw [prepare_spec, prepare_spec]
+  by_cases hn : tb < 0 ∨ fb < 0
+  · cases g1 <;> cases g2 <;> simp [hn, bufferTypes, Geom.tag]
+  · cases g1 <;> cases g2 <;> simp [hn]
+
+
+/-- **Shift invariance.**  Shifting both geometries by the same time offset leaves the
+    affinity unchanged as long as neither buffered geometry reaches time 0 (before and
+    after the shift), so that the clamp of the buffers is inactive -/
+theorem C06_shift_invariant (G : Geos σ) (d : Rat) (τ : σ → σ) (hS : ShiftInv G d τ) (g1 g2 : Geom)
+    (tb fb : Rat) (p1 : g1.bounds.isSome) (p2 : g2.bounds.isSome)
+    (c1 : NoClamp g1 tb d) (c2 : NoClamp g2 tb d) :
+    affinity G (g1.shift d) (g2.shift d) tb fb = affinity G g1 g2 tb fb := by
+  unfold affinity
+  rw [prepare_shift G d τ hS g1 tb fb p1 c1, prepare_shift G d τ hS g2 tb fb p2 c2]
+  rcases prepare G g1 tb fb with e1 | q1 <;> rcases prepare G g2 tb fb with e2 | q2 <;>
+    simp only [Except.map]
+  congr 1
+  unfold affinityP
+  simp only [isTime_shiftPrep, timeBounds_shiftPrep G d τ hS, toShape_shiftPrep G d τ hS,
+    timeIoU_shift, hS.area_shift, hS.inter_shift]
+
+/-- the executable statement of the property that the check evaluates on the real outputs
+    (`judgeObs`: range, symmetry, self-affinity, time-disjointness) holds of the model under
+    the contract -/
+theorem C06_model_holds (G : Geos σ) (hG : Sound G) (g1 g2 : Geom) (tb fb : Rat) (w1 : WF g1) (w2 : WF g2)
+    (p1 p2 : Prep σ) (h1 : prepare G g1 tb fb = .ok p1) (h2 : prepare G g2 tb fb = .ok p2)
+    (a12 a21 : Rat) (e12 : affinity G g1 g2 tb fb = .ok a12) (e21 : affinity G g2 g1 tb fb = .ok a21) :
+    (judgeObs ⟨a12, a21, decide (g1 = g2), decide (0 < extent G p1),
+      decide ((timeBounds G p1).2 ≤ (timeBounds G p2).1 ∨ (timeBounds G p2).2 ≤ (timeBounds G p1).1)⟩).all
+      = true := by
+  obtain ⟨r0, r1⟩ := C06_range G hG.sane g1 g2 tb fb a12 w1 w2 e12
+  have hs : a12 = a21 := by
+    rw [C06_symm G hG g1 g2 tb fb, e21] at e12
+    cases e12; rfl
+  simp only [ObsVerdict.all, judgeObs, Bool.and_eq_true, Bool.or_eq_true, Bool.not_eq_true',
+    decide_eq_true_eq, Bool.and_eq_false_imp, decide_eq_false_iff_not]
+  refine ⟨⟨⟨⟨r0, r1⟩, hs⟩, ?_⟩, ?_⟩
+  · by_cases hsame : g1 = g2
+    · by_cases hext : 0 < extent G p1
+      · right
+        subst hsame
+        rw [C06_self_one G hG g1 tb fb p1 h1 hext] at e12
+        cases e12; rfl
+      · left; intro _; exact hext
+    · left; intro h; exact absurd h hsame
+  · by_cases hd : (timeBounds G p1).2 ≤ (timeBounds G p2).1 ∨ (timeBounds G p2).2 ≤ (timeBounds G p1).1
+    · right
+      rw [C06_disjoint_zero G hG g1 g2 tb fb p1 p2 w1 w2 h1 h2 hd] at e12
+      cases e12; rfl
+    · left; exact hd
+
+/-! ### the contracts are satisfiable, the defect and its repair on concrete numbers -/
+
+/-- rectangles with exact arithmetic satisfy every contract used above -/
+theorem C06_contracts_satisfiable :
+    Sound boxGeos ∧ Sane boxGeos ∧ BoxExact boxGeos ∧ ∀ d, ShiftInv boxGeos d (shiftRect d) :=
+  ⟨boxGeos_sound, boxGeos_sound.sane, boxGeos_boxExact, boxGeos_shiftInv⟩
+
+/-- why the clamp is needed: when the measured intersection exceeds an area (as binary64 GEOS
+    results do by a few ulp) the pinned formula leaves `[0, 1]`, the repaired one does not -/
+theorem C06_pinned_formula_exceeds_one :
+    ∃ a b i : Rat, 0 ≤ i ∧ i ≤ a + b ∧ 1 < iou a b i ∧ iouC a b i = 1 :=
+  ⟨1, 1, 9/8, by decide +kernel, by decide +kernel, by decide +kernel, by decide +kernel⟩
+
+example : affinity boxGeos (.boundingBox 0 0 2 1) (.boundingBox 1 0 3 1) (1/100) 100 = .ok (1/3) := by decide +kernel
+example : affinity boxGeos (.timeStamp 1) (.timeInterval 1 2) (1/2) 100 = .ok (1/3) := by decide +kernel
+example : affinity boxGeos (.timeStamp 1) (.timeInterval 1 2) (-1) 100 = .error .invalid := by decide +kernel
+example : affinity boxGeos (.boundingBox 0 0 2 1) (.timeInterval 1 2) (-1) 100 = .ok (1/2) := by decide +kernel
+example : affinity boxGeos (.boundingBox 0 100 1 200) (.boundingBox 5 100 6 200) (1/100) 100 = .ok 0 := by decide +kernel
+example : WF (.boundingBox 0 0 2 1) := ⟨by decide +kernel, by decide +kernel⟩
+example : NoClamp (.timeStamp 1) (1/2) 3 := by
+  intro b hb; rw [bounds_timeStamp] at hb; cases hb; constructor <;> decide +kernel
 
 end SE.Proofs.C06
